@@ -244,8 +244,10 @@ class Ctx:
 
     def failing_input(self, fingerprint, what, replay):
         """A concrete input on which the PROPERTY fails on the implementation."""
-        self.concrete_found = True
         k = self.is_known(fingerprint)
+        if k is None:
+            # (a known finding does not excuse an obligation that broke for another reason)
+            self.concrete_found = True
         if k is not None:
             if fingerprint not in self.known_hits:
                 self.known_hits.append(fingerprint)
